@@ -7,5 +7,6 @@ INIT Init
 NEXT Next
 INVARIANT RebuildHolds
 INVARIANT BinaryOffsetExact
+INVARIANT BinaryShift
 INVARIANT EmitCase
 CHECK_DEADLOCK FALSE
